@@ -326,6 +326,15 @@ func (a *Analysis) ruleWiring() {
 			a.add("C04", "C04.args", regShape(m.regs[d.Prov.Reg]),
 				"%s: identity %s is registered by r%d output %d but the delivered instance #%d was produced by r%d output %d",
 				a.describeDelivery(d), d.Prov.Id, d.Prov.Reg, d.Prov.OutIdx, in.ID, in.Reg, in.OutIdx)
+			if m.regs[d.Prov.Reg].Life == LSingleton {
+				a.add("C01", "C01.outputs", regShape(m.regs[d.Prov.Reg]),
+					"%s: singleton identity %s must resolve to output %d of r%d (its one construction / registered value) but instance #%d of r%d output %d was delivered",
+					a.describeDelivery(d), d.Prov.Id, d.Prov.OutIdx, d.Prov.Reg, in.ID, in.Reg, in.OutIdx)
+			}
+			if m.regs[d.Prov.Reg].Life == LScoped {
+				a.add("C02", "C02.one", regShape(m.regs[d.Prov.Reg])+"/foreign", "%s: scoped identity %s (r%d output %d) was served with instance #%d of r%d output %d",
+					a.describeDelivery(d), d.Prov.Id, d.Prov.Reg, d.Prov.OutIdx, in.ID, in.Reg, in.OutIdx)
+			}
 		}
 	}
 	// group shape + optional + ignored on every invocation
@@ -891,6 +900,7 @@ func (a *Analysis) ruleOpValidity() {
 		if op.IsNilRes {
 			a.add("C13", "C13.overlap", oshape+"/nil", "op%d %s returned (nil, nil)", op.GID, op.Op)
 			a.add("C09", "C09.valid", oshape+"/nil", "op%d %s returned (nil, nil)", op.GID, op.Op)
+			a.add("C15", "C15.noCache", oshape+"/nil", "op%d %s returned (nil, nil): neither a service nor an error", op.GID, op.Op)
 			continue
 		}
 		if op.TypedNil && !a.nilFaultFired(-1) {
